@@ -241,7 +241,7 @@ theorem compat_assemble (lay : Layout) (fx : Bytes) (vs : List Bytes)
 theorem varParts_assemble (lay : Layout) (fx : Bytes) (vs : List Bytes) (hvs : vs.length = countVar lay) :
     varParts lay (assemble lay fx vs) = vs := by
   induction lay generalizing fx vs with
-  | nil => cases vs <;> simp_all [assemble, varParts, countVar]
+  | nil => cases vs <;> simp_all [varParts, countVar]
   | cons e l ih =>
     cases e with
     | none =>
@@ -260,7 +260,7 @@ theorem fixedSection_assemble (lay : Layout) (fx : Bytes) (vs : List Bytes) (off
   induction lay generalizing fx vs off with
   | nil =>
     simp only [fixedPartLen] at hfx
-    simp [assemble, fixedSection, List.length_eq_zero_iff.mp hfx]
+    simp [fixedSection, List.length_eq_zero_iff.mp hfx]
   | cons e l ih =>
     cases e with
     | none =>
